@@ -906,12 +906,16 @@ class Engine:
         f = self.lemmas.get(call_node.get("callee"))
         if f:
             return f(fb, call_node, truth)
-        if not truth or not call_node.get("callee"):
+        if not call_node.get("callee"):
             return None
         g = self.prog.resolve_direct(fb.fn, call_node["callee"])
         if g is None or g.ret not in ("_Bool", "bool", "int"):
             return None
-        lem = self.auto_lemma(g)
+        lem = self.return_lemma(g, truth)
+        if lem is None and not truth:
+            return None
+        if lem is None:
+            lem = self.auto_lemma(g)
         out = []
         for a, b in lem:
             sa, sb = self.subst(fb, call_node["id"], g, a), self.subst(fb, call_node["id"], g, b)
@@ -1380,6 +1384,53 @@ class Engine:
         return (self.subst(fb, nid, d, r.lhs), self.subst(fb, nid, d, r.rhs), origin)
 
     # --- derived predicate lemmas ---------------------------------------------
+    def return_lemma(self, g, truth):
+        """for a predicate whose body is one `return <condition>;`: facts over g's parameters that hold when it answers
+        true (the atoms of a conjunction) / false (the negated atoms of a disjunction); None when g has another shape"""
+        key = (g, bool(truth))
+        if key in self._lemma:
+            return self._lemma[key]
+        self._lemma[key] = None
+        rets = [n for n in g.nodes.values() if n["k"] == "return"]
+        if len(rets) != 1 or rets[0].get("sub") is None or any(n["k"] == "decl" or (n["k"] == "call" and not self.is_pure(g, n["id"])) for n in g.nodes.values()):
+            return None
+
+        def strip(x):
+            while True:
+                n = g.nodes[x]
+                if n["k"] in ("paren", "opaque") or (n["k"] == "cast" and n.get("implicit")):
+                    x = n["sub"]
+                else:
+                    return x
+
+        def atoms(x, op):
+            x = strip(x)
+            n = g.nodes[x]
+            if n["k"] == "bin" and n["op"] == op:
+                a, b = atoms(n["l"], op), atoms(n["r"], op)
+                return None if a is None or b is None else a + b
+            if n["k"] == "bin" and n["op"] in ("&&", "||"):
+                return None
+            return [x]
+        at = atoms(rets[0]["sub"], "&&" if truth else "||")
+        if not at:
+            return None
+        try:
+            fb = FnBounds(self, g)
+        except Exception:
+            return None
+        params = {p["name"] for p in g.params} - fb.assigned
+        out = []
+        for x in at:
+            F = fb.edge_facts(Facts(), x, "T" if truth else "F")
+            for (a, c2), c in F.f.items():
+                if all(self._param_only(t, params) for t in (a, c2) if t != ZERO):
+                    la = lin_const(0) if a == ZERO else lin_term(a)
+                    lb = lin_const(c) if c2 == ZERO else lin_add(lin_term(c2), lin_const(c))
+                    out.append((la, lb))
+        self._lemma[key] = out
+        return out
+
     def auto_lemma(self, g):
         """facts (lhs lin, rhs lin) over g's parameters that hold whenever g
         returns non-zero: negations of the guards on whose edge g returns 0
